@@ -17,6 +17,7 @@ ASSUMPTIONS = ["ratio bounds are enumerated on dyadic grids only (bound = r*span
                "only valid requests (left < right, indices in range, values present) - rejections belong to C20"]
 ANCHORS = {"process.py": [(354, 365)], "weaver.py": [(309, 315), (348, 360), (978, 988)]}
 FORMS_HARNESSES = "all"
+FORMS_SKIP_QUICK = ("truncate-long-series",)   # long inputs under every form: thorough tier only (cost)
 FORMS_WIDTH = {"truncate-long-series": 2}
 EXPLANATION = "list-comprehension definitions evaluated on every element of a bounded input lattice"
 
